@@ -290,6 +290,15 @@ class Translator:
             if (frm, to) in LEAVE_SEQ:
                 return self.add(ev, {"act": LEAVE_SEQ[(frm, to)], "n": n})
             return self.add(ev, {"act": "Unknown:%s->%s" % (frm, to), "n": n})
+        if kind == "stabilize":      # a stabilize round as an operation: parked between computing and installing its list
+            if do == "start":
+                self.opnode[op] = self.nidx[ev["n"]]
+            n = self.opnode.get(op, 0)
+            if to.startswith("stab:computed"):
+                return self.add(ev, {"act": "StabRead", "n": n})
+            if to == "done":
+                return self.add(ev, {"act": "StabWrite" if frm.startswith("stab:computed") else "Stabilize", "n": n})
+            return self.add(ev, {"act": "Unknown:%s->%s" % (frm, to), "n": n})
         if kind == "lookup":
             if to == "done":
                 self.lookups.append((self.sid, ev.get("i"), ev.get("res")))
@@ -433,6 +442,7 @@ def cex_to_scenario(states, name, finish=True, scale_bits=None, lookups_at_end=F
         steps += [{"do": "start", "op": "init%d" % m, "kind": "join", "n": nm(m), "via": nm(members[0])}, {"do": "steps", "op": "init%d" % m}, {"do": "settle"}]
     steps.append({"do": "settle", "rounds": 16})
     started = set()
+    stabop = {}
     nops = 0
     for a, b in zip(states, states[1:]):
         sa, sb = a["s"], b["s"]
@@ -458,6 +468,15 @@ def cex_to_scenario(states, name, finish=True, scale_bits=None, lookups_at_end=F
                     steps.append({"do": "step", "op": op})
                 else:
                     steps.append({"do": "until", "op": op, "gate": LPC_GATE[sb["lpc"][i]]})
+        for i in range(N):
+            if "stb" in sa and sa["stb"][i]["on"] != sb["stb"][i]["on"]:
+                moved = True
+                if sb["stb"][i]["on"]:
+                    nstab = sum(1 for x in steps if x.get("kind") == "stabilize")
+                    stabop[i] = "sb%d_%d" % (i + 1, nstab)
+                    steps.append({"do": "start", "op": stabop[i], "kind": "stabilize", "n": nm(i + 1)})
+                else:
+                    steps.append({"do": "steps", "op": stabop[i]})
         opsa, opsb = a.get("ops", []), b.get("ops", [])
         for i, ob in enumerate(opsb):
             if ob["st"] != "run" and (i >= len(opsa) or opsa[i]["st"] == "run"):
